@@ -77,7 +77,7 @@ TEXT = {
         "technique": "Verus contracts (multiset views) on the real cluster_spacepoints, its nested best_cluster and largest_cluster; assumed contracts for the Hough accumulator; bounded native runs of clustering and vertexing through the public API",
         "design_ref": "DESIGN.md §9.8",
         "level_text": "Proved for every input vector, every minimum size, bin counts and distance: the clusters and the remainder returned by cluster_spacepoints together are exactly the multiset of input points (nothing lost, duplicated or invented), every cluster has at least the minimum number of points, and every point of a cluster after the first lies within the maximum distance of an earlier point of the same cluster (single-linkage connectivity); the position(..).unwrap() of the remainder loop and the accumulator's remove_unchecked precondition never fail.",
-        "level_note": _COMMON_NOTE + " Assumed: contracts of HoughSpaceAccumulator::{add, remove_unchecked, most_popular} over an abstract multiset of points (IndexMap entry API and float trigonometry are outside Verus) and of the accumulator constructor; SpacePoint::distance and quantity comparison are uninterpreted; precondition: the derived float equality of SpacePoint coincides with identity on the input points (no NaN coordinate, no +0/-0 aliasing). Termination is not proved (exec_allows_no_decreases_clause on two functions). NOT proved: the vertexing half (find_vertices is one iterator chain around a Nelder-Mead minimiser) -- partition of the tracks and 'primary only with >= 2 tracks' are checked by the bounded native run c15_vertex only; c15_cluster re-checks the clustering half on synthetic clouds through the public API and thereby exercises the assumed accumulator.",
+        "level_note": _COMMON_NOTE + " Assumed: contracts of HoughSpaceAccumulator::{add, remove_unchecked, most_popular} over an abstract multiset of points (IndexMap entry API and float trigonometry are outside Verus) and of the accumulator constructor; SpacePoint::distance and quantity comparison are uninterpreted; precondition: the derived float equality of SpacePoint coincides with identity on the input points (no NaN coordinate, no +0/-0 aliasing). Termination is not proved (exec_allows_no_decreases_clause on two functions). Of the vertexing half only its first stage is proved (unit vertex: beamline_clusters partitions the candidate tracks into non-empty groups; sort_unstable_by, the push into the last group and the final map/collect are assumed leaves). NOT proved: find_vertices itself (one iterator chain around a Nelder-Mead minimiser) -- that the reported vertex plus the remainder is the input and 'primary only with >= 2 tracks' are checked by the bounded native run c15_vertex only; c15_cluster re-checks the clustering half on synthetic clouds through the public API and thereby exercises the assumed accumulator.",
     },
     "C18": {
         "technique": "Verus contracts on the real DriftTable::at, DriftTables::at and SpacePoint::try_from(Avalanche) over opaque quantities; bounded native grid over the shipped table for the numeric clauses",
